@@ -116,53 +116,159 @@ func Harness_C10_excl_start_then_call() {
 	})
 }
 
-// C09/C10 excl_late_caller: A is executing (parked inside its work function), B is queued behind it, and
-// a third call C arrives from another goroutine at an arbitrary moment while A finishes and B takes
-// over. No two work functions of the key overlap, every call is answered, no state remains.
-func Harness_C09_excl_late_caller() {
+// C10 excl_start_then_unresolved: as excl_start_then_call, but the coalesced call's work function (the
+// batch's effective work, being registered last) returns without resolving. Whichever goroutine of the
+// batch executes it - the Start's (which has no outcome channel) or the call's - the call is answered
+// with errResolveNotCalled and the key becomes idle again.
+func Harness_C10_excl_start_then_unresolved() {
 	var e Exclusive
 	release := make(chan struct{})
+	execs := 0
+	verifAtomic(func() {
+		e.Start("k", func() (interface{}, error) { <-release; return vtok(1), nil })
+	})
+	go func() {
+		verifYield()
+		var out <-chan *ExclusiveOutcome
+		verifAtomic(func() {
+			e.mutex.Lock()
+			it := e.work["k"]
+			started := it != nil && it.running && it.count == 0
+			e.mutex.Unlock()
+			verifAssume(started)
+			e.Start("k", func() (interface{}, error) { execs++; return vtok(2), nil })
+		})
+		out = e.CallWithOptions(ExclusiveKey("k"), ExclusiveWork(func(resolve func(interface{}, error)) { execs++ }))
+		close(release)
+		r := <-out
+		verifAssert(r != nil && r.Result == nil && r.Error == errResolveNotCalled, "unresolved_work_answers_the_coalesced_call_with_an_error")
+	}()
+	verifFinally(func() {
+		verifAssert(execs == 1, "one_execution_for_the_coalesced_batch")
+		verifAssert(len(e.work) == 0, "no_per_key_state_remains")
+		verifReach("quiescent")
+	})
+}
+
+// C09/C10 excl_three_calls: three calls on one key issued back-to-back by one goroutine (a Start and two
+// async calls); their three runner goroutines race each other and the caller, so the second and third
+// call may queue behind a running execution, coalesce, or find the key idle again - in every case no
+// two work functions overlap, both async calls are answered, and the key ends up idle with no state.
+func Harness_C09_excl_three_calls() {
+	var e Exclusive
 	running, overlap, execs := 0, false, 0
-	work := func(tok int, park bool) func() (interface{}, error) {
+	work := func(tok int) func() (interface{}, error) {
 		return func() (interface{}, error) {
 			running++
 			if running > 1 {
 				overlap = true
 			}
 			execs++
-			if park {
-				<-release
-			} else {
-				verifYield() // the work takes time
-			}
+			verifYield() // the work takes time: a scheduling point while "running"
 			running--
 			return vtok(tok), nil
 		}
 	}
-	verifAtomic(func() { e.Start("k", work(1, true)) })
+	verifAtomic(func() { e.Start("k", work(1)) })
+	outB := e.CallAsync("k", work(2))
+	outC := e.CallAsync("k", work(3))
+	rB := <-outB
+	rC := <-outC
+	verifAssert(rB != nil && rB.Error == nil && (rB.Result == vtok(2) || rB.Result == vtok(3)), "second_call_answered_by_a_later_execution")
+	verifAssert(rC != nil && rC.Error == nil && rC.Result == vtok(3), "third_call_answered_by_its_own_batch")
+	verifFinally(func() {
+		verifAssert(!overlap, "work_functions_for_one_key_never_overlap")
+		verifAssert(execs == 2 || execs == 3, "one_execution_per_batch")
+		verifAssert(len(e.work) == 0, "no_per_key_state_remains")
+		verifReach("quiescent")
+	})
+}
+
+// verifExclGhost: ghost state shared by the work functions for the non-overlap assertion.
+type verifExclGhost struct {
+	running, execs int
+	overlap        bool
+}
+
+func (g *verifExclGhost) work(tok int, park <-chan struct{}) func() (interface{}, error) {
+	return func() (interface{}, error) {
+		g.running++
+		if g.running > 1 {
+			g.overlap = true
+		}
+		g.execs++
+		if park != nil {
+			<-park
+		} else {
+			verifYield() // the work takes time: a scheduling point while "running"
+		}
+		g.running--
+		return vtok(tok), nil
+	}
+}
+
+// C09/C10 excl_late_call: A is executing (parked inside its work function) and B is queued behind it;
+// A is released and a third call C arrives at an arbitrary moment while A finishes and B takes over.
+// No two work functions of the key overlap, B and C are answered, the key ends up idle with no state.
+func Harness_C09_excl_late_call() {
+	var e Exclusive
+	var g verifExclGhost
+	release := make(chan struct{})
+	verifAtomic(func() { e.Start("k", g.work(1, release)) })
 	go func() {
 		verifYield()
 		var outB <-chan *ExclusiveOutcome
 		verifAtomic(func() {
-			// state of interest: A's execution is under way (assumption), B queues behind it
+			// state of interest: A's execution is under way (assumption); B queues behind it
 			e.mutex.Lock()
 			it := e.work["k"]
 			started := it != nil && it.running && it.count == 0
 			e.mutex.Unlock()
 			verifAssume(started)
-			outB = e.CallAsync("k", work(2, false))
+			outB = e.CallAsync("k", g.work(2, nil))
 		})
-		go func() {
-			rC := <-e.CallAsync("k", work(3, false))
-			verifAssert(rC != nil && rC.Error == nil && (rC.Result == vtok(2) || rC.Result == vtok(3)), "late_call_is_answered_by_an_execution_of_a_queued_function")
-		}()
 		close(release)
+		outC := e.CallAsync("k", g.work(3, nil))
 		rB := <-outB
+		rC := <-outC
 		verifAssert(rB != nil && rB.Error == nil && (rB.Result == vtok(2) || rB.Result == vtok(3)), "queued_call_is_answered")
+		verifAssert(rC != nil && rC.Error == nil && rC.Result == vtok(3), "late_call_is_answered_by_its_own_batch")
 	}()
 	verifFinally(func() {
-		verifAssert(!overlap, "work_functions_for_one_key_never_overlap")
-		verifAssert(execs == 2 || execs == 3, "one_execution_per_batch")
+		verifAssert(!g.overlap, "work_functions_for_one_key_never_overlap")
+		verifAssert(g.execs == 2 || g.execs == 3, "one_execution_per_batch")
+		verifAssert(len(e.work) == 0, "no_per_key_state_remains")
+		verifReach("quiescent")
+	})
+}
+
+// C09/C10 excl_idle_finish: A is executing with nobody queued; it is released and two calls B, C arrive
+// one after the other at arbitrary moments while A finishes (the key is idle when its work returns).
+func Harness_C09_excl_idle_finish() {
+	var e Exclusive
+	var g verifExclGhost
+	release := make(chan struct{})
+	verifAtomic(func() { e.Start("k", g.work(1, release)) })
+	go func() {
+		verifYield()
+		verifAtomic(func() {
+			e.mutex.Lock()
+			it := e.work["k"]
+			started := it != nil && it.running && it.count == 0
+			e.mutex.Unlock()
+			verifAssume(started)
+			close(release)
+		})
+		outB := e.CallAsync("k", g.work(2, nil))
+		outC := e.CallAsync("k", g.work(3, nil))
+		rB := <-outB
+		rC := <-outC
+		verifAssert(rB != nil && rB.Error == nil && (rB.Result == vtok(2) || rB.Result == vtok(3)), "first_late_call_is_answered")
+		verifAssert(rC != nil && rC.Error == nil && rC.Result == vtok(3), "second_late_call_is_answered_by_its_own_batch")
+	}()
+	verifFinally(func() {
+		verifAssert(!g.overlap, "work_functions_for_one_key_never_overlap")
+		verifAssert(g.execs == 2 || g.execs == 3, "one_execution_per_batch")
 		verifAssert(len(e.work) == 0, "no_per_key_state_remains")
 		verifReach("quiescent")
 	})
